@@ -212,7 +212,11 @@ Definition init (W L : nat) : state :=
 
 (* ---- NewQueue(options...): the effective configuration ----
    Defaults workerCount = runtime.NumCPU(), queueLength = 2 * NumCPU; the options are applied in argument order, each
-   writes one field, so the last WithWorkers / WithQueueLength wins and options of different kinds do not interact. *)
+   writes one field, so the last WithWorkers / WithQueueLength wins and options of different kinds do not interact.
+   An option VALUE is a description: the configuration is a function of the option list alone ([effective]); building
+   several queues from the same option values gives several independent instances of this transition system - no
+   label of one queue (e.g. its ResizeLen) occurs in another queue's run.  (Likewise an Enqueue option value may be
+   reused for any number of items.) *)
 Inductive qopt := OptWorkers (n : nat) | OptLength (n : nat).
 Definition apply_opt (cfg : nat * nat) (o : qopt) : nat * nat :=
   match o with OptWorkers n => (n, snd cfg) | OptLength n => (fst cfg, n) end.
